@@ -71,6 +71,9 @@ func run(c *vf.Ctx) {
 	if len(reg) == 0 {
 		c.Fatalf("empty registry")
 	}
+	for _, n := range regNotes {
+		c.Cap(n)
+	}
 	names := map[string]bool{}
 	for _, ep := range reg {
 		if names[ep.Name] {
